@@ -163,10 +163,10 @@ def binary_read_datafile(path: Path, masses: list[XSpecificMass]) -> np.ndarray:
     msprofile = binary_read_msprofile(
         path.joinpath("AcqData", "MSProfile.bin"), len(masses)
     )
+    # SpectrumOffset is the byte position in MSProfile.bin, which starts with a 68 byte header
     offsets = (
-        msscan["SpectrumParamValues"]["SpectrumOffset"]
-        // msscan["SpectrumParamValues"]["ByteCount"]
-    )
+        msscan["SpectrumParamValues"]["SpectrumOffset"] - 68
+    ) // msscan["SpectrumParamValues"]["ByteCount"]
     dtype = [(str(mass), np.float64) for mass in masses] + [("Time", np.float64)]
     data = np.empty(offsets.size, dtype=dtype)
     for mass in masses:
